@@ -681,7 +681,7 @@ class nat_const_less_eq_macro(Macro):
             return False
 
         m, n = goal.args
-        return m.is_number() and n.is_number() and m.dest_number() <= n.dest_number()
+        return m.get_type() == NatType and m.is_number() and n.is_number() and m.dest_number() <= n.dest_number()
 
     def eval(self, goal, pts):
         assert len(pts) == 0 and self.can_eval(goal), "nat_const_less_eq_macro"
